@@ -162,8 +162,15 @@ def _apply_op(m, book, op):
                 Y = {1: data["Ya"], 2: data["Yb"]}.get(op[2], np.zeros((op[1], NF), np.float32))[: op[1]]
                 key, what = ("new", op[2]), "new_data"
         n_train = book.versions[-1].shape[0]
+        # the same values in another dtype / memory layout are the same data (float32 -> float64 is exact): rotate through
+        # C/float32, Fortran/float32, C/float64, Fortran/float64 copies of the argument
+        book.n_tr = getattr(book, "n_tr", 0) + 1
+        lay = book.n_tr % 4
+        Yarg = [Y.copy(), np.asfortranarray(Y), Y.astype(np.float64), np.asfortranarray(Y.astype(np.float64))][lay] if Y.shape[0] else Y.copy()
+        if lay: what_layout = ":" + ["", "fortran_float32", "float64", "fortran_float64"][lay]
+        else: what_layout = ""
         try:
-            out = m.transform(Y.copy())
+            out = m.transform(Yarg)
         except Exception as e:
             if Y.shape[0] == 0 and isinstance(e, ValueError):
                 return (1, 0, 0, False, 0)
@@ -180,8 +187,8 @@ def _apply_op(m, book, op):
         if cols != want_cols:
             book.fails.append(("transform:cols:%s%s%s" % (what, ":graph_mode" if graph else "", after), "transform(%s) returned %d columns, expected %d" % (what, cols, want_cols)))
         if what == "current_training_data" and not stored:
-            book.fails.append(("transform:not_stored_result:current_training_data%s" % after,
-                               "transform(current training data, %d rows) did not return the model's %s" % (Y.shape[0], "graph_" if graph else "embedding_")))
+            book.fails.append(("transform:not_stored_result:current_training_data%s%s" % (what_layout, after),
+                               "transform(current training data%s, %d rows) did not return the model's %s" % (what_layout.replace(":", " as "), Y.shape[0], "graph_" if graph else "embedding_")))
         if cfg["seeded"]:
             if key in book.seen and book.seen[key] != h:
                 book.fails.append(("transform:not_repeatable:%s%s" % (what, after), "seeded model: transform(%s) returned different bytes for the same input" % what))
